@@ -226,6 +226,124 @@ def run_case(case):
             'sources': sorted(o.get_event_sources().keys()) if o is not None else None}
 
 
+# ---- ObjectTranscoder.generate: which object values a record gives under a property map --------------------
+
+L_KEYS = ['name', 'n', 'flag', 'tags', 'codes', 'sub', 'items', '0', 'deep', 'text', 'none']
+L_SCALARS = ['alice', '', ' ', 'é', '-', 0, 1, 7, -3, True, False, None, 'n/a']
+
+
+def gen_lookup_case(rng):
+    def scalar():
+        return rng.choice(L_SCALARS)
+
+    def listval():
+        # (no booleans next to 0/1: a Python set keeps one of two equal members)
+        pool = [x for x in L_SCALARS if not isinstance(x, bool)] if rng.random() < 0.8 else [True, False, 'x', '']
+        return [rng.choice(pool) for _ in range(rng.randint(0, 4))]
+    rec = {}
+    for k in rng.sample(L_KEYS, rng.randint(2, 7)):
+        r = rng.random()
+        if r < 0.4:
+            rec[k] = scalar()
+        elif r < 0.6:
+            rec[k] = listval()
+        elif r < 0.85:
+            rec[k] = {kk: (scalar() if rng.random() < 0.6 else listval() if rng.random() < 0.5 else {'leaf': scalar(), '1': scalar()})
+                      for kk in rng.sample(['n', 'x', '0', '1', 'inner'], rng.randint(1, 3))}
+        else:
+            rec[k] = [{'v': scalar()}, {'v': scalar(), 'w': listval()}][:rng.randint(1, 2)]
+    # paths that lead to scalars, lists of scalars, or nowhere
+    def leaf_paths(v, prefix):
+        out = []
+        if isinstance(v, dict):
+            for k, x in v.items():
+                out += leaf_paths(x, prefix + [k])
+        elif isinstance(v, list):
+            if all(not isinstance(x, (dict, list)) for x in v):
+                out.append(prefix)
+                for i in range(len(v)):
+                    out += [prefix + [str(i)], prefix + [str(i - len(v))]]
+            else:
+                for i, x in enumerate(v):
+                    out += leaf_paths(x, prefix + [str(i)]) + leaf_paths(x, prefix + [str(i - len(v))])
+        else:
+            out.append(prefix)
+            if isinstance(v, str) and v:
+                out.append(prefix + ['0'])      # an index into a string gives a character
+        return out
+    good = ['.'.join(p) for p in leaf_paths(rec, [])]
+    bad = ['zz', 'name.zz', 'tags.9', 'tags.-9', 'sub..n', 'sub.n.n.n', 'items.x', '', 'none.n', 'flag.0', 'n.0', 'items.0.v.zz.q']
+    sels = []
+    for _ in range(rng.randint(1, 6)):
+        sel = rng.choice(good) if good and rng.random() < 0.75 else rng.choice(bad)
+        found = ref_lookup(rec, sel)
+        if isinstance(found, dict) or (isinstance(found, list) and any(isinstance(x, (dict, list)) for x in found)):
+            continue        # a dictionary is no object value (it cannot be put into an event)
+        if sel not in [x['selector'] for x in sels]:
+            sels.append({'selector': sel, 'props': rng.sample(['p', 'q', 'r', 's'], rng.randint(1, 2)),
+                         'empty': rng.choice([[], [], ['-'], ['n/a', 0], [None], [' ', 1]])})
+    return {'kind': 'lookup', 'record': rec, 'map': sels}
+
+
+def ref_lookup(rec, selector):
+    """The field a dotted path names, by the documented reading: dictionaries by key, lists (and strings) by index, anything
+    else or a missing step gives nothing."""
+    cur = rec
+    for f in selector.split('.'):
+        if isinstance(cur, dict):
+            cur = cur.get(f)
+        elif isinstance(cur, (list, str)) and not isinstance(cur, bool):
+            try:
+                cur = cur[int(f)]
+            except (ValueError, IndexError):
+                return None
+        else:
+            return None
+        if cur is None:
+            return None
+    return cur
+
+
+def ref_props(case):
+    props = {}
+    for e in case['map']:
+        v = ref_lookup(case['record'], e['selector'])
+        if v is None:
+            continue
+        empty = [''] + list(e['empty'])
+        if type(v) == list:
+            vals = [x for x in v if x not in empty]
+        elif type(v) == bool:
+            vals = ['true' if v else 'false']
+        else:
+            vals = [v] if v not in empty else []
+        for p in e['props']:
+            props[p] = vals
+    return sorted([k, canon_values(set(v))] for k, v in props.items() if v)
+
+
+def canon_values(vals):
+    return sorted(json.dumps([type(v).__name__, v], ensure_ascii=False) for v in vals)
+
+
+def run_lookup(case):
+    from edxml.transcode.object import ObjectTranscoder
+
+    class T(ObjectTranscoder):
+        TYPES = ['et']
+        TYPE_MAP = {'r': 'et'}
+        PROPERTY_MAP = {'et': {e['selector']: (e['props'] if len(e['props']) > 1 else e['props'][0]) for e in case['map']}}
+        EMPTY_VALUES = {e['selector']: tuple(e['empty']) for e in case['map'] if e['empty']}
+    try:
+        events = list(T().generate(case['record'], 'r'))
+    except Exception as ex:
+        return {'outcome': 'raised:' + type(ex).__name__}
+    if len(events) != 1:
+        return {'outcome': '%d events' % len(events)}
+    props = {k: canon_values(set(v)) for k, v in events[0].get_properties().items() if len(v)}
+    return {'outcome': 'ok', 'props': sorted([k, v] for k, v in props.items())}
+
+
 # ---- the transcoder test harness: a mediator whose output is read back into an event collection ------------
 
 H_NAMES = ['alice', 'bob', 'carol']
@@ -428,7 +546,7 @@ class C17(Property):
     title = 'Transcoder mediators always emit one valid, complete EDXML stream'
     design_ref = 'DESIGN.md section 10, C17'
     required_theorems = ('mediator_stream_parses', 'mediator_writes_only_accepted', 'ontology_precedes_events', 'invalid_event_never_written',
-                         'skipped_or_raised')
+                         'skipped_or_raised', 'generated_from_named_fields', 'generateProps_snoc', 'fieldValues_spec')
     level_text = ('Lean 4 theorems over the mediator machine (records -> transcoder events -> writer calls, with the ontology '
                   'written whenever it changed before an event is written, invalid events skipped or raised per configuration), '
                   'composed with the writer and parser machines of C02/C14: for every sequence of records and event source '
@@ -438,11 +556,17 @@ class C17(Property):
                   'while nothing is written. Compared with ObjectTranscoderMediator on generated record sequences (known/unknown '
                   'record types, nested/missing/empty/list/bool fields, values needing normalisation, unrepairable values, '
                   'sources added mid-stream, all configuration combinations, file or bytes output), re-parsing the output with a '
-                  'validating parser.')
+                  'validating parser. The way ObjectTranscoder.generate takes object values from a record is modelled as well '
+                  '(dotted paths through dictionaries, lists and strings, negative indexes, missing steps, lists giving their '
+                  'members, booleans rendered, empty values dropped, several properties per path, later paths replacing earlier '
+                  'ones): whatever a generated event holds for a property are the values of a field that the property map names '
+                  'for it (generated_from_named_fields, generateProps_snoc, fieldValues_spec); compared with generate() on '
+                  'generated records and property maps.')
     level_note = ('Proof is about the model. Which events a record transcoder generates, and whether the gate accepts an event '
-                  'before/after repair, are inputs of the machine (C03, C13 decide the latter); the dotted field lookup of '
-                  'ObjectTranscoder.generate is judged by the oracle only.')
-    technique = 'Lean 4 proof (simulation: mediator machine -> writer machine -> parser machine, by induction over the record sequence) + differential correspondence'
+                  'before/after repair, are inputs of the machine (C03, C13 decide the latter); records are JSON-like values '
+                  '(objects with attributes, field names that are attributes of builtin types, floats and unusual index '
+                  'notations are outside the lookup model).')
+    technique = 'Lean 4 proof (simulation: mediator machine -> writer machine -> parser machine, by induction over the record sequence; property dictionary of a record by induction over the property map) + differential correspondence'
     parallel = True
     assumptions = ('record transcoders do not raise',)
 
@@ -452,6 +576,8 @@ class C17(Property):
                 'sources); non-trivial = at least one written and one rejected event; distinct by content')
 
     def generate(self, rng, tier):
+        for _ in range(150 if tier == 'quick' else 4000):
+            yield gen_lookup_case(rng)
         for _ in range(40 if tier == 'quick' else 800):
             yield gen_harness_case(rng)
         for i in range(200 if tier == 'quick' else 5000):
@@ -468,6 +594,8 @@ class C17(Property):
             yield case
 
     def observe(self, case):
+        if case.get('kind') == 'lookup':
+            return run_lookup(case)
         if case.get('kind') == 'harness':
             return run_harness(case)
         return run_case(case)
@@ -503,6 +631,9 @@ class C17(Property):
         return ops, decided
 
     def requests(self, case):
+        if case.get('kind') == 'lookup':
+            return [{'op': 'lookup', 'record': [[k, v] for k, v in case['record'].items()],
+                     'map': [{'selector': e['selector'], 'props': e['props'], 'empty': [''] + list(e['empty'])} for e in case['map']]}]
         if case.get('kind') == 'harness':
             return []
         types = ['type.a', 'type.b'] + (['type.f'] if case['fallback'] else [])
@@ -514,6 +645,12 @@ class C17(Property):
         return [req]
 
     def predict(self, case, replies):
+        if case.get('kind') == 'lookup':
+            props = {}
+            for p, vs in replies[0]['props']:
+                if vs:
+                    props[p] = canon_values(set(json.dumps(v) for v in vs) and {json.dumps(v): v for v in vs}.values())
+            return {'outcome': 'ok', 'props': sorted([k, v] for k, v in props.items())}
         if case.get('kind') == 'harness':
             return 'undecided'
         r = replies[0]
@@ -533,8 +670,8 @@ class C17(Property):
                 'sources': sorted(set(r['sources'])) if all_decided else 'undecided'}
 
     def fill_undecided(self, case, obs, pred):
-        if pred == 'undecided':
-            return obs
+        if pred == 'undecided' or case.get('kind') == 'lookup':
+            return obs if pred == 'undecided' else pred
         pred['calls'] = [o if p == 'undecided' else p for o, p in zip(obs['calls'], pred['calls'])]
         if pred['events'] == 'undecided':
             pred['events'] = obs['events']
@@ -561,6 +698,15 @@ class C17(Property):
         return out
 
     def oracle(self, case, obs):
+        if case.get('kind') == 'lookup':
+            if obs['outcome'] != 'ok':
+                return 'ObjectTranscoder.generate: %s for the record %s' % (obs['outcome'], json.dumps(case['record'], ensure_ascii=False)[:300])
+            want = ref_props(case)
+            if obs['props'] != want:
+                return ('the generated event holds %s, the record fields named in the property map give %s (record %s, map %s)' % (
+                    json.dumps(obs['props'], ensure_ascii=False)[:300], json.dumps(want, ensure_ascii=False)[:300],
+                    json.dumps(case['record'], ensure_ascii=False)[:300], json.dumps(case['map'], ensure_ascii=False)[:300]))
+            return None
         if case.get('kind') == 'harness':
             return self.harness_oracle(case, obs)
         if obs['parse'] is not None:
@@ -624,11 +770,18 @@ class C17(Property):
         return None
 
     def neighbours(self, case, rng):
+        if case.get('kind') == 'lookup':
+            return [gen_lookup_case(rng) for _ in range(40)]
         if case.get('kind') == 'harness':
             return [gen_harness_case(rng) for _ in range(20)]
         return [gen_case(rng) for _ in range(30)]
 
     def reductions(self, case):
+        if case.get('kind') == 'lookup':
+            for i in range(len(case['map'])):
+                if len(case['map']) > 1:
+                    yield dict(case, map=case['map'][:i] + case['map'][i + 1:])
+            return
         if case.get('kind') == 'harness':
             recs = case['records']
             for i in range(len(recs)):
@@ -641,6 +794,8 @@ class C17(Property):
                 yield dict(case, ops=ops[:i] + ops[i + 1:])
 
     def nontrivial_obs(self, case, obs):
+        if case.get('kind') == 'lookup':
+            return json.dumps(case, sort_keys=True) if isinstance(obs, dict) and obs.get('props') else None
         if case.get('kind') == 'harness':
             names = [r['name'] for r in case['records']]
             return json.dumps(case, sort_keys=True) if len(names) != len(set(names)) else None
@@ -651,7 +806,7 @@ class C17(Property):
         return json.dumps(case, sort_keys=True, default=str) if rejected else None
 
     def sample_view(self, case):
-        if case.get('kind') == 'harness':
+        if case.get('kind') in ('harness', 'lookup'):
             return case
         return {'calls': [op[0] for op in case['ops']], 'ignore_invalid': case['ignore_invalid'], 'fallback': case['fallback']}
 
